@@ -866,6 +866,19 @@ def a1(repo: Repo) -> RuleResult:
                 same = [n_ for n_ in ast.walk(s.unit.fn.node) if isinstance(n_, ast.Raise) and n_.exc is not None and src_of(n_.exc.func if isinstance(n_.exc, ast.Call) else n_.exc).split(".")[0] == s.exc]
                 if len(cands) == 1 and len(same) == 1:
                     k = cands[0]
+                elif not cands and len(same) == 1 and s.unit.fn.cls is not None:
+                    # the method moved into a base class: beliefs about it as a method of the classes that inherit it
+                    mname = s.unit.fn.node.name
+                    inh = []
+                    for bk in beliefs:
+                        parts_ = bk.split("|")
+                        if len(parts_) < 5 or parts_[0] != "A1" or parts_[3] != s.exc or "." not in parts_[2] or parts_[2].rsplit(".", 1)[1] != mname:
+                            continue
+                        owner = [c_ for c_ in cg.model.all_classes() if c_.name == parts_[2].rsplit(".", 1)[0] and c_.rel == parts_[1]]
+                        if owner and cg.model.lookup(owner[0], mname) is s.unit.fn and parts_[4].lstrip().startswith((s.exc + "(", s.exc + ".from_token(")):
+                            inh.append(bk)
+                    if inh and all((not beliefs[bk].get("requires")) or _rule_clean(repo, beliefs[bk]["requires"]) for bk in inh):
+                        k = inh[0]
             if status is None and k in beliefs:
                 b = beliefs[k]
                 need = b.get("requires")
